@@ -16,7 +16,10 @@ R12.d  pristine copy: ``GraphUpdater.reset`` rebinds the graph from a deep
 R12.f  no stale aliases: an observer attribute never keeps a container its
        owner *replaces* on reset (the schedule's list of machine lists, the
        dispatcher's tracking vectors) unless the observer's own reset re-reads
-       it.  R12.a/R12.c additionally hold at path level: an attribute the
+       it; nor one of its *own* containers (or a bound method of one,
+       ``self.update = self.history.append``) that its reset replaces; nor
+       does a ``functools``-memoised property anywhere in the package store
+       such a container.  R12.a/R12.c additionally hold at path level: an attribute the
        update phase writes is written on every returning path of reset that is
        compatible with the update path's configuration (no early exits).
 R12.e  environments: ``reset`` calls ``dispatcher.reset()`` before building
@@ -749,5 +752,84 @@ def stale_aliases(ctx, lc, cone, disp):
                         "looks at the containers of the first episode",
                         loc=mf.loc(val),
                     )
+    # the observer's own containers: an attribute that keeps one of them - or a
+    # bound method of one (`self.update = self.history.append`) - while reset
+    # replaces the container by a new object refers to the old one afterwards
+    CONTAINER_METHODS = {
+        "append", "extend", "insert", "add", "update", "pop", "popleft", "appendleft", "remove", "discard", "clear",
+        "get", "setdefault", "__getitem__", "__setitem__", "__contains__", "index", "count", "items", "keys", "values",
+    }
+    for c in cone:
+        rst = repo.method(c, "reset")
+        if rst is None:
+            continue
+        own_rebound = {w.attr for w in lc.attr_writes(rst, c) if w.kind == "rebind"}
+        if not own_rebound:
+            continue
+        seen_attrs = set()
+        for q in c.mro:
+            k = repo.classes.get(q)
+            if k is None:
+                continue
+            for m in k.methods.values():
+                for nd in own_nodes(m.node):
+                    tgs = nd.targets if isinstance(nd, ast.Assign) else [nd.target] if isinstance(nd, ast.AnnAssign) and nd.value is not None else []
+                    for t in tgs:
+                        if isinstance(t, ast.Attribute) and isinstance(t.value, ast.Name) and m.params and t.value.id == m.params[0]:
+                            seen_attrs.add(t.attr)
+        for attr in sorted(seen_attrs - own_rebound):
+            for mf, val in lc.attr_sources(c, attr):
+                if val is None or mf.name == "reset":
+                    continue
+                x = ctx.norm.xexpr(mf, val)
+                me = mf.params[0] if mf.params else "self"
+                base = x
+                via = None
+                if isinstance(x, ast.Attribute) and isinstance(x.value, ast.Attribute) and x.attr in CONTAINER_METHODS:
+                    base, via = x.value, x.attr
+                if not (isinstance(base, ast.Attribute) and isinstance(base.value, ast.Name) and base.value.id == me and base.attr in own_rebound):
+                    continue
+                n += 1
+                what = f"the bound method `{via}` of `self.{base.attr}`" if via else f"the object behind `self.{base.attr}`"
+                chk.violation(
+                    "R12.f", f"{c.qualname}.{mf.name}", val,
+                    f"`self.{attr} = {ast.unparse(val)[:60]}` keeps {what}, which {c.name}.reset replaces by a new object "
+                    f"without renewing `self.{attr}`: after a reset `self.{attr}` still works on the container of the previous episode",
+                    loc=mf.loc(val),
+                )
+    # memoised properties anywhere in the package (functools caches): a value
+    # computed once that holds a container some reset replaces goes stale the
+    # same way (the Dispatcher's own memo is emptied on every state change and
+    # is judged by C05)
+    observer_rebound = set()
+    for c in cone:
+        rst = repo.method(c, "reset")
+        if rst is not None:
+            for w in lc.attr_writes(rst, c):
+                if w.kind == "rebind" and not w.attr.startswith("_"):
+                    observer_rebound.add("." + w.attr)
+    FUNCTOOLS_CACHES = {"cached_property", "functools.cached_property", "functools.cache", "cache", "functools.lru_cache", "lru_cache"}
+    for fi in repo.all_functions():
+        if isinstance(fi.node, ast.Lambda) or not (set(fi.decorators) & FUNCTOOLS_CACHES):
+            continue
+        for x in own_nodes(fi.node):
+            if not (isinstance(x, ast.Attribute) and isinstance(x.ctx, ast.Load)):
+                continue
+            txt = ctx.norm.xtext(fi, x).replace(" ", "")
+            hit = next((r for r in sorted(rebound | observer_rebound) if txt.endswith(r) and txt != "self" + r), None)
+            if hit is None:
+                continue
+            # the attribute must belong to an object that has such a reset
+            owners = [c for c in cone if "." + x.attr in observer_rebound and ctx.types.is_a(fi.module, x.value, c.qualname)]
+            if hit in observer_rebound and not owners:
+                continue
+            n += 1
+            chk.violation(
+                "R12.f", fi, x,
+                f"the memoised `{fi.name}` stores `{ast.unparse(x)[:60]}`, an object its owner replaces by a new one on reset: "
+                "computed once, the value keeps the container of the episode in which it was first used",
+                loc=fi.loc(x),
+            )
+            break
     if n == 0:
         chk.ok("R12.f", "observers", "", f"no observer attribute aliases an owner-rebound component ({', '.join(sorted(rebound)) or 'none'})")
